@@ -54,9 +54,17 @@ func (v VarVal) Show() string {
 	return fmt.Sprintf("bool(%v)", v.B)
 }
 
+var emptySets int
+
 func (v VarVal) ToResult(root store.Cursor) xsel.Result {
 	switch v.Kind {
 	case "nodes":
+		if len(v.Nodes) == 0 {
+			emptySets++
+			if emptySets%2 == 0 {
+				return xsel.NodeSet(nil) // a caller's `var keep NodeSet` that nothing was appended to
+			}
+		}
 		ns := make(xsel.NodeSet, 0, len(v.Nodes))
 		for _, p := range v.Nodes {
 			ns = append(ns, cursorAt(root, p))
